@@ -198,7 +198,12 @@ Fixpoint mem_dated (a : str) (d : Z) (l : list (str * Z)) : bool :=
    (with the open's date), and the accounts that have had a close directive so far *)
 Record bstate := mkBst { st_last : Z; st_open : list (str * Z); st_closed : list str }.
 
-Definition bst_init : bstate := mkBst 0 [] [].
+(* [st_last] starts at 0000-01-01, the least date [read_date] can return (day 0 is 0001-01-01, the
+   dates of the year 0000, which time.Parse and knut accept, are negative day numbers: with 0 here
+   the first entry of a ledger of the year 0000 was reported as out of order,
+   Properties/C16.v C16_order_year0_example) *)
+Definition min_date : Z := -366.
+Definition bst_init : bstate := mkBst min_date [] [].
 
 Definition k_order : str := [111;114;100;101;114].                                           (* order *)
 Definition k_unbalanced : str := [117;110;98;97;108;97;110;99;101;100].                       (* unbalanced *)
